@@ -59,7 +59,9 @@ NextGrid == UNCHANGED <<m, t>> /\ s = <<>> /\
             \E dl \in (IF BandOnly THEN LineBand(PT[t]) ELSE (0 - MaxDL)..MaxDL) : s' = <<dl>>
 InvGrid == s # <<>> =>
     \E P \in {PT[t]} : \E dl \in {s[1]} :
-    \E dops \in {IF BandOnly /\ dl \notin {0 - 1, 0, 1, P.lbase} THEN Band(P, dl) ELSE 0..MaxDop} :
+    \* replayed operation advances: the whole range for the line advances 0, +-1, line_base (quick) or the
+    \* whole line band (thorough), the frontier band for the others; the theorem below covers the whole range
+    \E dops \in {IF dl \in {0 - 1, 0, 1, P.lbase} \/ (~BandOnly /\ dl \in LineBand(P)) THEN 0..MaxDop ELSE Band(P, dl)} :
     /\ ParamsOk(P)
     /\ (~SelectOverflow(P, dl) => \A dop \in 0..MaxDop : SelectCorrect(P, dl, dop))
     /\ (dl \in LineBand(P) /\ ~SelectOverflow(P, dl) =>
